@@ -394,7 +394,14 @@ fn digest(dict: &Dict, docs: &[(String, Lang)], cfg: &CfgMap) -> Vec<String> {
 }
 
 fn process_docs() -> Vec<(String, Lang)> {
-    let mut v: Vec<(String, Lang)> = SHARED.iter().map(|s| (s.to_string(), Lang::Markdown)).collect();
+    // w25: first a capitalised misspelling, then gibberish (forces the distance back-off), then both:
+    // a process whose main thread has a past must agree with one that starts here
+    let mut v: Vec<(String, Lang)> = vec![
+        ("Tommorow is here. Reccomend it to them. Libary books are here.".to_string(), Lang::Plain),
+        ("The qzxjkvwqp is here, and the zzkqjxvw too.".to_string(), Lang::Plain),
+        ("Tommorow the qzxjkvwqp is here. Reccomend it to them.".to_string(), Lang::Markdown),
+    ];
+    v.extend(SHARED.iter().map(|s| (s.to_string(), Lang::Markdown)));
     v.extend(SHARED.iter().map(|s| (s.to_string(), Lang::Plain)));
     v
 }
@@ -403,6 +410,21 @@ fn process_docs() -> Vec<(String, Lang)> {
 pub fn child() {
     let dict: Dict = harper_core::FstDictionary::curated();
     let names = rule_names(&new_group(&dict));
+    if std::env::var("HV_C05_CHILD").ok().as_deref() == Some("2") {
+        // w25: this process did OTHER work first (a British group over a merged dictionary, the
+        // documents in reverse order, then an American group in reverse order): whatever is
+        // memoised per process (lazy statics, #[cached], thread-locals of the main thread) is warm
+        // with other content when the digests are taken
+        let docs = process_docs();
+        let rev: Vec<(String, Lang)> = docs.iter().rev().cloned().collect();
+        let words: Vec<String> = USER_WORDS.iter().map(|s| s.to_string()).collect();
+        let ops: Vec<XOp> = std::iter::once(XOp::Cfg(all_on(&names))).chain(rev.iter().map(|(t, l)| XOp::Lint(t.clone(), if *l == Lang::Markdown { "markdown".into() } else { "plaintext".into() }))).collect();
+        let _ = run_xhistory(Dialect::British, &words, &ops);
+        let mut d = digest(&dict, &rev, &all_on(&names));
+        d.reverse();
+        println!("{}", serde_json::to_string(&d).unwrap());
+        return;
+    }
     let d = digest(&dict, &process_docs(), &all_on(&names));
     println!("{}", serde_json::to_string(&d).unwrap());
 }
@@ -415,6 +437,730 @@ fn big_doc(n: usize, salt: usize) -> String {
     }
     s.push_str("And that is all.");
     s
+}
+
+// =============================================================================================
+// w25 — oracle-only streams through call sites, configurations and input families that the
+// streams above do not reach (notes/asbuilt_w25_C05.md): every dialect, a merged dictionary with
+// user words, every document language of the server (comments, HTML, Typst, literate Haskell,
+// commit messages), non-ASCII / CRLF / empty / very long / repetitive texts, misspellings whose
+// near matches belong to another dialect; the JS linter across `import_words` (which rebuilds its
+// LintGroup); a group moved between threads; the real `Backend` with several documents open at
+// once; a second process that did other work first.
+
+use harper_core::{CharString, Dictionary, Document, FstDictionary, MergedDictionary, MutableDictionary, WordMetadata};
+use std::sync::Arc;
+
+pub const DIALECTS: [(Dialect, &str); 4] = [(Dialect::American, "American"), (Dialect::British, "British"), (Dialect::Canadian, "Canadian"), (Dialect::Australian, "Australian")];
+
+pub fn dialect_of(name: &str) -> Dialect {
+    DIALECTS.iter().find(|d| d.1 == name).map(|d| d.0).unwrap_or(Dialect::American)
+}
+
+pub fn dialect_name(d: Dialect) -> &'static str {
+    DIALECTS.iter().find(|x| x.0 == d).map(|x| x.1).unwrap_or("American")
+}
+
+/// curated dictionary + the user's words (what harper-ls, harper-cli and the JS linter lint with)
+pub fn user_merged(words: &[String]) -> Arc<MergedDictionary> {
+    let mut user = MutableDictionary::new();
+    user.extend_words(words.iter().map(|w| (w.chars().collect::<CharString>(), WordMetadata::default())));
+    let mut m = MergedDictionary::new();
+    m.add_dictionary(FstDictionary::curated());
+    m.add_dictionary(Arc::new(user));
+    Arc::new(m)
+}
+
+#[derive(Clone, Debug)]
+enum XOp {
+    Cfg(CfgMap),
+    /// text, language id of the server's table
+    Lint(String, String),
+}
+
+fn xops_json(ops: &[XOp]) -> Value {
+    Value::Array(
+        ops.iter()
+            .map(|o| match o {
+                XOp::Cfg(c) => json!({"setConfig": c}),
+                XOp::Lint(t, l) => json!({"lint": t, "lang": l}),
+            })
+            .collect(),
+    )
+}
+
+fn xops_from_json(v: &Value) -> Vec<XOp> {
+    v.as_array()
+        .map(|a| {
+            a.iter()
+                .filter_map(|o| {
+                    if let Some(c) = o.get("setConfig") {
+                        Some(XOp::Cfg(serde_json::from_value(c.clone()).ok()?))
+                    } else {
+                        Some(XOp::Lint(o.get("lint")?.as_str()?.to_string(), o.get("lang").and_then(|l| l.as_str()).unwrap_or("plaintext").to_string()))
+                    }
+                })
+                .collect()
+        })
+        .unwrap_or_default()
+}
+
+/// `None`: no document (unknown language id, or the front-end panicked — C01/C04's business)
+type XStep = Option<(Option<Vec<Lint>>, Option<Vec<Lint>>)>;
+
+fn run_xhistory_on<D: Dictionary + 'static>(dict: &Arc<D>, dialect: Dialect, ops: &[XOp]) -> Vec<XStep> {
+    let mut g = LintGroup::new_curated(dict.clone(), dialect);
+    let mut steps = vec![];
+    for o in ops {
+        match o {
+            XOp::Cfg(c) => g.config = to_real(c),
+            XOp::Lint(text, id) => {
+                let doc = crate::frontends::parser_for(id, false).and_then(|p| guarded(|| Document::new(text, &p, &**dict)).ok());
+                let Some(doc) = doc else {
+                    steps.push(None);
+                    continue;
+                };
+                let real = guarded(|| g.lint(&doc)).ok();
+                let mut f = LintGroup::new_curated(dict.clone(), dialect);
+                f.config = g.config.clone();
+                let fresh = guarded(|| f.lint(&doc)).ok();
+                steps.push(Some((real, fresh)));
+            }
+        }
+    }
+    steps
+}
+
+/// One long-lived group of `dialect` over curated (+ user words, merged) against a brand-new one.
+fn run_xhistory(dialect: Dialect, words: &[String], ops: &[XOp]) -> Vec<XStep> {
+    if words.is_empty() { run_xhistory_on(&FstDictionary::curated(), dialect, ops) } else { run_xhistory_on(&user_merged(words), dialect, ops) }
+}
+
+fn x_first_diff(steps: &[XStep]) -> Option<usize> {
+    steps.iter().position(|s| matches!(s, Some((a, b)) if a != b))
+}
+
+fn x_shrink(dialect: Dialect, words: &[String], ops: &[XOp]) -> Vec<XOp> {
+    let mut cur = ops.to_vec();
+    let mut changed = true;
+    let mut budget = 120;
+    while changed && budget > 0 {
+        changed = false;
+        let mut i = 0;
+        while i < cur.len() && budget > 0 {
+            let mut t = cur.clone();
+            t.remove(i);
+            budget -= 1;
+            if x_first_diff(&run_xhistory(dialect, words, &t)).is_some() {
+                cur = t;
+                changed = true;
+            } else {
+                i += 1;
+            }
+        }
+    }
+    cur
+}
+
+struct XResult {
+    fail: Option<(String, String, Value)>,
+    lint_ops: usize,
+    no_doc: usize,
+    lints: usize,
+    repeats: usize,
+}
+
+fn eval_xhistory(dialect: Dialect, words: &[String], ops: &[XOp]) -> XResult {
+    let mut res = XResult { fail: None, lint_ops: 0, no_doc: 0, lints: 0, repeats: 0 };
+    let steps = run_xhistory(dialect, words, ops);
+    if let Some(i) = x_first_diff(&steps) {
+        let small = x_shrink(dialect, words, ops);
+        let st = run_xhistory(dialect, words, &small);
+        let (small, st, j) = match x_first_diff(&st) {
+            Some(j) => (small, st, j),
+            None => (ops.to_vec(), steps, i),
+        };
+        let (a, b) = st[j].clone().unwrap();
+        let lang = small.iter().filter_map(|o| if let XOp::Lint(_, l) = o { Some(l.clone()) } else { None }).nth(j).unwrap_or_default();
+        res.fail = Some((
+            "ext-history-dependent".into(),
+            format!("dialect {}, user words {:?}: lint #{} of the history (language {}) differs from a brand-new group: {}", dialect_name(dialect), words, j + 1, lang, describe_diff(&a, &b)),
+            json!({"kind": "ext", "dialect": dialect_name(dialect), "words": words, "ops": xops_json(&small)}),
+        ));
+        return res;
+    }
+    let mut seen: Vec<(&String, &String)> = vec![];
+    let mut si = 0;
+    for o in ops {
+        if let XOp::Lint(t, l) = o {
+            res.lint_ops += 1;
+            match &steps[si] {
+                None => res.no_doc += 1,
+                Some((a, _)) => res.lints += a.as_ref().map(|a| a.len()).unwrap_or(0),
+            }
+            si += 1;
+            if seen.contains(&(t, l)) {
+                res.repeats += 1;
+            }
+            seen.push((t, l));
+        }
+    }
+    res
+}
+
+/// prose families the generators above do not write (tag, prose)
+pub fn family_texts(thorough: bool) -> Vec<(&'static str, String)> {
+    let mut v: Vec<(&'static str, String)> = vec![
+        // misspellings whose near matches are words of ONE dialect (kilometer / kilometre …): the
+        // suggestions go through the dialect filter, and through the word cache the second time
+        ("dialect-near-miss", "The town is one kilometr away.".into()),
+        ("dialect-near-miss", "One kilometr here and another kilometr there, Kilometr after kilometr.".into()),
+        ("dialect-near-miss", "The colr of the centr theatr was grey, and the flavr of the harbr was a honr.".into()),
+        ("dialect-near-miss", "We realise that the neighbour's favourite colour is gray; we realize the neighbor's favorite color is grey.".into()),
+        ("dialect-near-miss", "He analysd the defenc of the travelr with a litr of alumium.".into()),
+        ("non-ascii", "Teh café was naïve — “teh” résumé and teh straße, señor.".into()),
+        ("astral", "Teh 😀 cat 👩‍👩‍👧 sat on teh mat 𝒳, and it were a alot worse then 🎉.".into()),
+        ("combining", "Tehe\u{301} cat is an e\u{301}le\u{301}phant, an hour ago it were a alot worse then.".into()),
+        ("fullwidth", "Ｔｅｈ ｃａｔ is an test． Teh ＣＡＴ　is an test.".into()),
+        ("crlf", "Teh cat.\r\nTeh dog is an test.\r\n\r\nAn test of the the thing.\r\n".into()),
+        ("lone-cr", "Teh cat.\rTeh dog is an test.\rthe the end".into()),
+        ("empty", String::new()),
+        ("whitespace-only", "  \n\t \r\n ".into()),
+        ("whitespace-only", "\n".into()),
+        ("long-word", format!("{} is an test of teh {}.", "a".repeat(300), "supercalifragilistic".repeat(12))),
+        ("same-clause-many-times", "it were a alot worse then. ".repeat(12)),
+        ("same-word-many-times", "teh Teh TEH ".repeat(14) + "."),
+        ("user-word-variants", "A tset, a Tset, a TSET and tset's; wrods and Wrods at o'clockish, O'Clockish; TEH teh Teh.".into()),
+        ("user-word-variants", "The tset was a tset of wrods. The tset was a tset of wrods.".into()),
+        // a word with nothing within distance 3 makes SpellCheck back off to larger distances (other
+        // automaton builders on that thread); capitalised misspellings go through the exact-case and
+        // the lower-case automaton
+        ("gibberish", "The qzxjkvwqp is here, and the zzkqjxvw too.".into()),
+        ("capitalised-misspelling", "Tommorow is here. Reccomend it to them. Libary books are here.".into()),
+        ("gibberish+capitalised-misspelling", "Tommorow the qzxjkvwqp is here. Reccomend it to them.".into()),
+    ];
+    if thorough {
+        v.push(("long-document", SHARED.iter().cycle().take(160).cloned().collect::<Vec<_>>().join(" ")));
+        v.push(("long-document", SHARED.iter().cycle().take(120).cloned().collect::<Vec<_>>().join("\n\n")));
+    } else {
+        v.push(("long-document", SHARED.iter().cycle().take(40).cloned().collect::<Vec<_>>().join(" ")));
+    }
+    v
+}
+
+pub const XLANGS: [&str; 14] = ["plaintext", "markdown", "html", "typst", "rust", "python", "javascript", "lhaskell", "git-commit", "go", "lua", "java", "c", "shellscript"];
+pub const USER_WORDS: [&str; 6] = ["tset", "Wrods", "o'clockish", "naïveté", "TEH", "alumium"];
+
+fn gen_xhistory(rng: &mut Rng, fams: &[(&'static str, String)], langs: &[String], names: &RuleNames, curated: &CfgMap, all: &[String], tags: &mut Vec<String>) -> Vec<XOp> {
+    let mut ops = vec![XOp::Cfg(gen_cfg(rng, names, curated, all))];
+    // a small working set of (prose, language) so that documents, chunks and words recur
+    let mut ws: Vec<(String, String, String)> = vec![];
+    for _ in 0..rng.range(2, 4) {
+        let (tag, prose) = if rng.chance(3, 4) { rng.pick(fams).clone() } else { ("shared", rng.pick(&SHARED).to_string()) };
+        let id = if rng.chance(1, 4) { "plaintext".to_string() } else { rng.pick(langs).clone() };
+        tags.push(format!("ext:family:{}", tag));
+        tags.push(format!("ext:lang:{}", id));
+        ws.push((prose.clone(), id.clone(), crate::frontends::embed(&id, &prose, rng.below(4))));
+    }
+    let mut cfgs: Vec<CfgMap> = vec![];
+    for _ in 0..rng.range(4, 8) {
+        match rng.below(10) {
+            0 | 1 => {
+                let c = if !cfgs.is_empty() && rng.chance(1, 2) { rng.pick(&cfgs).clone() } else { gen_cfg(rng, names, curated, all) };
+                cfgs.push(c.clone());
+                ops.push(XOp::Cfg(c));
+            }
+            2 | 3 => {
+                // the same prose in another language of the server's table
+                let (prose, id, text) = rng.pick(&ws).clone();
+                let other = rng.pick(langs).clone();
+                ops.push(XOp::Lint(text, id));
+                tags.push(format!("ext:lang:{}", other));
+                ops.push(XOp::Lint(crate::frontends::embed(&other, &prose, rng.below(4)), other));
+            }
+            _ => {
+                let (_, id, text) = rng.pick(&ws).clone();
+                ops.push(XOp::Lint(text, id));
+            }
+        }
+    }
+    // the first document once more at the end: everything else lies between its two lints
+    let (_, id, text) = ws[0].clone();
+    ops.push(XOp::Lint(text, id));
+    ops
+}
+
+/// all dialects × {curated, curated + user words}: long-lived group vs brand-new, step by step
+fn ext_histories(sess: &mut Session, rng: &mut Rng, names: &RuleNames, curated: &CfgMap, all: &[String], thorough: bool) {
+    let fams = family_texts(thorough);
+    let langs: Vec<String> = XLANGS.iter().filter(|id| crate::frontends::parser_for(id, false).is_some()).map(|s| s.to_string()).collect();
+    let words: Vec<String> = USER_WORDS.iter().map(|s| s.to_string()).collect();
+    let on = all_on(names);
+    let mut jobs: Vec<(Dialect, Vec<String>, Vec<XOp>, Vec<String>)> = vec![];
+    for (d, _) in DIALECTS {
+        for w in [vec![], words.clone()] {
+            // corpus: every family once per setup, twice in a row, plain text, all rules on and curated
+            // (three histories per setup, so that they run side by side)
+            for part in 0..3 {
+                let mut ops = vec![XOp::Cfg(on.clone())];
+                let mut tags = vec![];
+                let mine: Vec<&(&'static str, String)> = fams.iter().enumerate().filter(|(i, _)| i % 3 == part).map(|(_, f)| f).collect();
+                for (i, (tag, prose)) in mine.iter().enumerate() {
+                    tags.push(format!("ext:family:{}", tag));
+                    ops.push(XOp::Lint(prose.clone(), "plaintext".into()));
+                    if i % 3 == 2 {
+                        ops.push(XOp::Cfg(if i % 2 == 0 { curated.clone() } else { on.clone() }));
+                    }
+                }
+                for (_, prose) in mine.iter() {
+                    ops.push(XOp::Lint(prose.clone(), "plaintext".into()));
+                }
+                jobs.push((d, w.clone(), ops, tags));
+            }
+            for _ in 0..(if thorough { 40 } else { 5 }) {
+                let mut tags = vec![];
+                let ops = gen_xhistory(rng, &fams, &langs, names, curated, all, &mut tags);
+                jobs.push((d, w.clone(), ops, tags));
+            }
+        }
+    }
+    let results = par_map(jobs.len(), 16, |i| eval_xhistory(jobs[i].0, &jobs[i].1, &jobs[i].2));
+    for (r, (d, w, ops, tags)) in results.into_iter().zip(jobs.iter()) {
+        sess.o();
+        sess.count(&format!("ext:dialect:{}", dialect_name(*d)));
+        sess.count(if w.is_empty() { "ext:dictionary:curated" } else { "ext:dictionary:merged-with-user-words" });
+        for t in tags {
+            sess.count(t);
+        }
+        sess.add("ext:lint-ops", r.lint_ops as u64);
+        sess.add("ext:lint-ops-without-document(front-end panicked)", r.no_doc as u64);
+        sess.add("ext:lints", r.lints as u64);
+        sess.add("ext:repeated-documents", r.repeats as u64);
+        if r.lints > 0 && r.repeats > 0 {
+            sess.nontrivial(&format!("ext|{}|{}|{}", dialect_name(*d), w.len(), xops_json(ops)));
+        }
+        if let Some((c, desc, i)) = r.fail {
+            sess.fail(&c, desc, i, None);
+        }
+    }
+}
+
+// ---- the JS linter across import_words (synchronize_lint_dict rebuilds the LintGroup) -------------
+
+#[derive(Clone, Debug)]
+pub enum WOp {
+    Lint(String, bool),
+    Import(Vec<String>),
+    SetCfg(String),
+}
+
+fn wops_json(ops: &[WOp]) -> Value {
+    Value::Array(
+        ops.iter()
+            .map(|o| match o {
+                WOp::Lint(t, md) => json!({"lint": t, "lang": if *md { "markdown" } else { "plain" }}),
+                WOp::Import(w) => json!({"importWords": w}),
+                WOp::SetCfg(c) => json!({"setConfig": c}),
+            })
+            .collect(),
+    )
+}
+
+fn wops_from_json(v: &Value) -> Vec<WOp> {
+    v.as_array()
+        .map(|a| {
+            a.iter()
+                .filter_map(|o| {
+                    if let Some(w) = o.get("importWords") {
+                        Some(WOp::Import(serde_json::from_value(w.clone()).ok()?))
+                    } else if let Some(c) = o.get("setConfig") {
+                        Some(WOp::SetCfg(c.as_str()?.to_string()))
+                    } else {
+                        Some(WOp::Lint(o.get("lint")?.as_str()?.to_string(), o.get("lang").and_then(|l| l.as_str()) == Some("markdown")))
+                    }
+                })
+                .collect()
+        })
+        .unwrap_or_default()
+}
+
+fn wasm_dialect(d: Dialect) -> harper_wasm::Dialect {
+    match d {
+        Dialect::American => harper_wasm::Dialect::American,
+        Dialect::British => harper_wasm::Dialect::British,
+        Dialect::Canadian => harper_wasm::Dialect::Canadian,
+        Dialect::Australian => harper_wasm::Dialect::Australian,
+    }
+}
+
+/// lower∘normalize key under which `MutableDictionary` files a word
+fn dict_key(w: &str) -> String {
+    w.chars().map(|c| if matches!(c, '’' | '‘' | 'ʼ' | '＇') { '\'' } else { c }).collect::<String>().to_lowercase()
+}
+
+/// RECORDED finding (known_findings.json, class `wasm-dict-case-only-reimport-stale`; the defect C07 and
+/// C16 record as `c07-case-collision` / `c16-words-case-only-reimport-stale`): `import_words` rebuilds the
+/// linting dictionary only when the user dictionary GREW; a call that only replaces the spelling of
+/// existing keys (`Tset` … later `tset`) leaves the group with the old spelling. `stale` = the keys
+/// whose spelling was replaced by calls that added no new key since the last call that did. The
+/// classifier: some key is stale AND every lint in which the two results differ is about a word
+/// with a stale key.
+fn only_stale_words_differ(stale: &std::collections::BTreeSet<String>, a: &[String], b: &[String]) -> bool {
+    if stale.is_empty() {
+        return false;
+    }
+    let mut diff: Vec<&String> = a.iter().filter(|x| !b.contains(x)).collect();
+    diff.extend(b.iter().filter(|x| !a.contains(x)));
+    !diff.is_empty()
+        && diff.iter().all(|j| {
+            let text = serde_json::from_str::<Value>(j).ok().and_then(|v| v["problem_text"].as_str().map(dict_key)).unwrap_or_default();
+            stale.iter().any(|k| text.contains(k.as_str()))
+        })
+}
+
+/// One long-lived `harper_wasm::Linter`; after every lint: (a) a NEW Linter that is given the same
+/// words (one call) and then the same configurations must report the same, (b) so must harper-core
+/// with a new group over curated + those words under that configuration (overlaps removed, as
+/// `Linter::lint` does). Returns (class, description) of the first difference.
+pub fn eval_wasm_dict(dialect: Dialect, ops: &[WOp]) -> Result<Option<(String, String)>, String> {
+    use harper_core::parsers::{Markdown, PlainEnglish};
+    guarded(|| {
+        let mut long = harper_wasm::Linter::new(wasm_dialect(dialect));
+        let mut words: Vec<String> = vec![];
+        let mut cfgs: Vec<String> = vec![];
+        let mut n = 0;
+        let mut spelling: BTreeMap<String, String> = BTreeMap::new();
+        let mut stale: std::collections::BTreeSet<String> = Default::default();
+        for o in ops {
+            match o {
+                WOp::Import(w) => {
+                    long.import_words(w.clone());
+                    words.extend(w.iter().cloned());
+                    let grew = w.iter().any(|x| !spelling.contains_key(&dict_key(x)));
+                    if grew {
+                        stale.clear();
+                    }
+                    for x in w {
+                        let k = dict_key(x);
+                        if let Some(old) = spelling.insert(k.clone(), x.clone()) {
+                            if old != *x && !grew {
+                                stale.insert(k);
+                            }
+                        }
+                    }
+                }
+                WOp::SetCfg(c) => {
+                    if long.set_lint_config_from_json(c.clone()).is_ok() {
+                        cfgs.push(c.clone());
+                    }
+                }
+                WOp::Lint(t, md) => {
+                    n += 1;
+                    let lang = if *md { harper_wasm::Language::Markdown } else { harper_wasm::Language::Plain };
+                    let a: Vec<String> = long.lint(t.clone(), lang).iter().map(|l| l.to_json()).collect();
+                    let mut f = harper_wasm::Linter::new(wasm_dialect(dialect));
+                    if !words.is_empty() {
+                        f.import_words(words.clone());
+                    }
+                    for c in &cfgs {
+                        let _ = f.set_lint_config_from_json(c.clone());
+                    }
+                    let b: Vec<String> = f.lint(t.clone(), lang).iter().map(|l| l.to_json()).collect();
+                    if a != b {
+                        let class = if only_stale_words_differ(&stale, &a, &b) { "wasm-dict-case-only-reimport-stale" } else { "wasm-dict-history-dependent" };
+                        return Some((class.to_string(), format!("harper_wasm::Linter ({}): lint #{} ({:?}, {}) gives {} lints on the long-lived instance, {} on a new one given the same words {:?} and configurations {:?}", dialect_name(dialect), n, trunc(t, 60), if *md { "markdown" } else { "plain" }, a.len(), b.len(), words, cfgs)));
+                    }
+                    // harper-core under the same dictionary and configuration
+                    let dict = user_merged(&words);
+                    let mut user = LintGroupConfig::default();
+                    for c in &cfgs {
+                        if let Ok(mut u) = serde_json::from_str::<LintGroupConfig>(c) {
+                            user.merge_from(&mut u);
+                        }
+                    }
+                    user.fill_with_curated();
+                    let doc = if *md { Document::new(t, &Markdown::default(), &*dict) } else { Document::new(t, &PlainEnglish, &*dict) };
+                    let mut g = LintGroup::new_curated(dict.clone(), dialect).with_lint_config(user);
+                    let mut core = g.lint(&doc);
+                    harper_core::remove_overlaps(&mut core);
+                    let want: Vec<Value> = core.iter().map(|l| serde_json::to_value(l).unwrap_or(Value::Null)).collect();
+                    let got: Vec<Value> = a.iter().map(|j| serde_json::from_str::<Value>(j).map(|v| v["inner"].clone()).unwrap_or(Value::Null)).collect();
+                    if want != got {
+                        // (same recorded defect seen against harper-core: compare on the lints alone)
+                        let as_js = |v: &[Value], texts: &dyn Fn(&Value) -> String| v.iter().map(|l| json!({"inner": l, "problem_text": texts(l)}).to_string()).collect::<Vec<_>>();
+                        let chars: Vec<char> = t.chars().collect();
+                        let text_of = |l: &Value| -> String { let (s, e) = (l["span"]["start"].as_u64().unwrap_or(0) as usize, l["span"]["end"].as_u64().unwrap_or(0) as usize); chars.get(s..e.min(chars.len())).map(|c| c.iter().collect()).unwrap_or_default() };
+                        if only_stale_words_differ(&stale, &as_js(&got, &text_of), &as_js(&want, &text_of)) {
+                            return Some(("wasm-dict-case-only-reimport-stale".to_string(), format!("harper_wasm::Linter ({}): after a case-only re-import (stale keys {:?}, words {:?}) lint #{} ({:?}) differs from harper-core over curated + the words as exported", dialect_name(dialect), stale, words, n, trunc(t, 60))));
+                        }
+                        let show = |v: &[Value]| v.iter().map(|l| format!("{}-{} {}", l["span"]["start"], l["span"]["end"], l["message"].as_str().unwrap_or(""))).take(4).collect::<Vec<_>>();
+                        return Some(("wasm-dict-not-core".to_string(), format!("harper_wasm::Linter ({}) after importing {:?} and configurations {:?}: lint #{} ({:?}) reports {} lints {:?}; a new harper-core group over curated + those words under that configuration {} {:?}", dialect_name(dialect), words, cfgs, n, trunc(t, 60), got.len(), show(&got), want.len(), show(&want))));
+                    }
+                }
+            }
+        }
+        None
+    })
+}
+
+fn wasm_dict_stream(sess: &mut Session, rng: &mut Rng, thorough: bool) {
+    let t1 = "A tset of teh wrods, and a Tset of Teh Wrods; one kilometr is an test.";
+    let t2 = "The **tset** was an _tset_ of wrods, it were a alot worse then.";
+    let t3 = "We bought 3 apples at o'clockish; teh kilometr and the the tset.";
+    let w = |xs: &[&str]| WOp::Import(xs.iter().map(|s| s.to_string()).collect());
+    let l = |t: &str, md: bool| WOp::Lint(t.to_string(), md);
+    let c = |s: &str| WOp::SetCfg(s.to_string());
+    let mut scripts: Vec<(Dialect, Vec<WOp>)> = vec![
+        // lint, add words, lint again: the flagged word is accepted, the caches of the old group are gone
+        (Dialect::American, vec![l(t1, false), l(t2, true), w(&["tset"]), l(t1, false), l(t2, true), w(&["tset"]), l(t1, false), w(&["wrods", "Teh"]), l(t1, false), l(t3, false), l(t1, true)]),
+        // an explicit configuration must survive the rebuild
+        (Dialect::American, vec![c(r#"{"SpellCheck": true, "AnA": false, "SpelledNumbers": true}"#), l(t3, false), w(&["kilometr"]), l(t3, false), l(t1, false), c(r#"{"RepeatedWords": false, "AnA": null}"#), l(t3, false), w(&["o'clockish", "tset"]), l(t3, false), l(t3, true)]),
+        (Dialect::British, vec![l(t1, false), l(t1, false), w(&["Tset"]), l(t1, false), c(r#"{"SentenceCapitalization": false, "NoSuchRule": true}"#), l(t2, false), w(&["wrods"]), l(t2, false), l(t2, true), l(t1, false)]),
+        // the witness of the recorded finding `wasm-dict-case-only-reimport-stale` (a re-import that only changes the case)
+        (Dialect::Canadian, vec![w(&["kilometr", "Tset"]), l(t2, false), w(&["tset"]), l(t2, false)]),
+    ];
+    let texts = [t1, t2, t3, SHARED[6], SHARED[14], "One kilometr here and another kilometr there."];
+    let pool = ["tset", "Tset", "wrods", "teh", "Teh", "kilometr", "o'clockish", "alot", "mispelled", "evrywhere", "naïveté"];
+    let cfgs = [r#"{"SpellCheck": false}"#, r#"{"SpellCheck": true, "AnA": false}"#, r#"{"SpelledNumbers": true, "BoringWords": true}"#, r#"{"RepeatedWords": false, "SpellCheck": null}"#];
+    for _ in 0..(if thorough { 24 } else { 3 }) {
+        let d = rng.pick(&DIALECTS).0;
+        let mut ops = vec![];
+        for _ in 0..rng.range(6, 10) {
+            match rng.below(8) {
+                0 | 1 => ops.push(WOp::Import((0..rng.range(1, 2)).map(|_| rng.pick(&pool).to_string()).collect())),
+                2 => ops.push(c(*rng.pick(&cfgs))),
+                _ => ops.push(l(*rng.pick(&texts), rng.chance(1, 3))),
+            }
+        }
+        ops.push(l(t1, false));
+        scripts.push((d, ops));
+    }
+    for (d, ops) in &scripts {
+        sess.o();
+        sess.count("wasm-linter:import-words:long-lived-vs-new-and-core");
+        sess.add("wasm-linter:import-words:lint-ops", ops.iter().filter(|o| matches!(o, WOp::Lint(..))).count() as u64);
+        sess.add("wasm-linter:import-words:import-ops", ops.iter().filter(|o| matches!(o, WOp::Import(..))).count() as u64);
+        match eval_wasm_dict(*d, ops) {
+            Ok(None) => sess.nontrivial(&format!("wasm-dict|{}|{}", dialect_name(*d), wops_json(ops))),
+            Ok(Some((class, desc))) => sess.fail(&class, desc, json!({"kind": "wasm-dict", "dialect": dialect_name(*d), "ops": wops_json(ops)}), None),
+            Err(e) => sess.sample(json!({"wasm import_words stream panicked": e})),
+        }
+    }
+}
+
+// ---- one group, several threads one after the other -----------------------------------------------
+
+/// A group built on one thread and used on others (harper-ls's runtime moves a document's linter
+/// between worker threads): every lint equals that of a brand-new group built and run right here.
+fn moved_stream(sess: &mut Session, dict: &Dict, names: &RuleNames, docs: &[(String, Lang)]) {
+    let cfg = all_on(names);
+    let want = digest(dict, docs, &cfg); // one new group, this thread (digest of a history = of brand-new groups, by the streams above)
+    // built in a thread of its own, handed back
+    let built: Option<LintGroup> = std::thread::scope(|s| s.spawn(|| new_group(dict)).join().ok());
+    let Some(mut g) = built else { return };
+    g.config = to_real(&cfg);
+    let mut bad: Option<(usize, usize)> = None;
+    for round in 0..3 {
+        let got: Vec<String> = std::thread::scope(|s| {
+            let g = &mut g;
+            s.spawn(move || {
+                docs.iter()
+                    .map(|(t, l)| {
+                        let doc = make_doc(t, *l, dict);
+                        match guarded(|| g.lint(&doc)) {
+                            Ok(ls) => ls.iter().map(|x| format!("{}:{}:{}", x.span.start, x.span.end, payload(x))).collect::<Vec<_>>().join("\u{1f}"),
+                            Err(_) => "PANIC".into(),
+                        }
+                    })
+                    .collect()
+            })
+            .join()
+            .unwrap_or_default()
+        });
+        for (i, d) in got.iter().enumerate() {
+            sess.o();
+            if *d != want[i] && bad.is_none() {
+                bad = Some((round, i));
+            }
+        }
+    }
+    // brand-new threads (no thread-local state yet) against this one, which is made to have a past
+    // first: a lint must not depend on what the thread that runs it did before
+    {
+        let texts = ["Tommorow is here. Reccomend it to them. Libary books are here.", "The qzxjkvwqp is here, and the zzkqjxvw too.", "Teh cat sat, teh dog ran, and Teh bird flew.", "Mispelled Wrods Evrywhere, one Kilometr away."];
+        let tdocs: Vec<(String, Lang)> = texts.iter().map(|t| (t.to_string(), Lang::Plain)).collect();
+        let _ = digest(dict, &[tdocs[1].clone()], &cfg); // this thread has backed off to larger distances now
+        let here: Vec<String> = tdocs.iter().map(|d| digest(dict, std::slice::from_ref(d), &cfg).remove(0)).collect();
+        let there: Vec<Option<String>> = std::thread::scope(|s| {
+            let cfg = &cfg;
+            let hs: Vec<_> = tdocs.iter().map(|d| s.spawn(move || digest(dict, std::slice::from_ref(d), cfg).remove(0))).collect();
+            hs.into_iter().map(|h| h.join().ok()).collect()
+        });
+        for (i, (a, b)) in here.iter().zip(there.iter()).enumerate() {
+            sess.o();
+            if Some(a) != b.as_ref() {
+                sess.fail("thread-dependent", format!("a new group on a brand-new thread and a new group on a thread that has linted other documents before give different lints for {:?}", tdocs[i].0), json!({"kind": "history", "ops": ops_json(&[HOp::Cfg(cfg.clone()), HOp::Lint(tdocs[i].0.clone(), Lang::Plain)]), "note": "differs only between a used and a brand-new thread"}), None);
+                break;
+            }
+        }
+        sess.count("threads:brand-new-thread-vs-used-thread");
+        // and histories that run on a brand-new thread from their first lint on
+        let l = |t: &str| XOp::Lint(t.to_string(), "plaintext".to_string());
+        let scripts: Vec<Vec<XOp>> = vec![
+            vec![XOp::Cfg(cfg.clone()), l(texts[0]), l(texts[1]), l(texts[0]), l("Tommorow the qzxjkvwqp is here. Reccomend it to them.")],
+            vec![XOp::Cfg(cfg.clone()), l(texts[3]), l(texts[2]), l(texts[1]), l(texts[3]), l(texts[2])],
+        ];
+        let results: Vec<Option<XResult>> = std::thread::scope(|s| {
+            let hs: Vec<_> = scripts.iter().map(|ops| s.spawn(move || eval_xhistory(Dialect::American, &[], ops))).collect();
+            hs.into_iter().map(|h| h.join().ok()).collect()
+        });
+        for r in results.into_iter().flatten() {
+            sess.o();
+            sess.count("threads:history-on-a-brand-new-thread");
+            if let Some((c, d, i)) = r.fail {
+                sess.fail(&c, d, i, None);
+            }
+        }
+    }
+    sess.count("threads:one-group-moved-across-4-threads");
+    if let Some((round, i)) = bad {
+        sess.fail("thread-moved-dependent", format!("a group built on one thread and used on another (hand-over #{}) got different lints for document {} than a group that stayed on one thread", round + 1, i), json!({"kind": "history", "ops": ops_json(&[HOp::Cfg(cfg.clone()), HOp::Lint(docs[i].0.clone(), docs[i].1)]), "note": "differs only when the group changes threads"}), None);
+    }
+}
+
+// ---- the real Backend: several documents open at once vs a session of its own per document --------
+
+fn pub_lines(v: Option<&Value>) -> Option<Vec<String>> {
+    v.and_then(|v| v.as_array()).map(|a| a.iter().map(|d| format!("{}:{}-{}:{} [{}] {}", d["range"]["start"]["line"], d["range"]["start"]["character"], d["range"]["end"]["line"], d["range"]["end"]["character"], d["severity"], d["message"].as_str().unwrap_or(""))).collect())
+}
+
+/// what a server that has seen NOTHING else publishes for (uri, language, text)
+fn fresh_publication(cfg: &Value, uri: &str, lang: &str, text: &str) -> Result<Option<Vec<String>>, crate::lsclient::LsError> {
+    use crate::lsclient::*;
+    let mut ls = LsSession::start()?;
+    ls.initialize(cfg)?;
+    ls.notify("textDocument/didOpen", did_open(uri, lang, text))?;
+    ls.quiesce(cfg)?;
+    let out = pub_lines(ls.last_publication(uri));
+    ls.shutdown(cfg)?;
+    Ok(out)
+}
+
+/// script steps: (action, document index, text index)
+fn eval_server_hist(sess: &mut Session, cfg: &Value, docs: &[(String, String)], texts: &[String], script: &[(String, usize, usize)]) -> Result<(), crate::lsclient::LsError> {
+    use crate::lsclient::*;
+    let body = |d: usize, t: usize| crate::frontends::embed(&docs[d].1, &texts[t % texts.len()], t);
+    let mut ls = LsSession::start()?;
+    ls.initialize(cfg)?;
+    let mut ver = 1i64;
+    let mut open: Vec<Option<String>> = vec![None; docs.len()];
+    // two entries of `docs` may name the SAME uri under different language ids: the one that is
+    // open is closed first (the server must forget it: a re-open is a new document)
+    let mut memo: HashMap<(usize, String), Option<Vec<String>>> = HashMap::new();
+    let mut done: Vec<String> = vec![];
+    for (act, d, t) in script {
+        let d = *d % docs.len();
+        let (uri, lang) = (&docs[d].0, &docs[d].1);
+        done.push(format!("{} {}", act, uri.rsplit('/').next().unwrap_or("")));
+        match act.as_str() {
+            "open" | "change" => {
+                let text = body(d, *t);
+                for e in 0..docs.len() {
+                    if e != d && docs[e].0 == *uri && open[e].is_some() {
+                        ls.notify("textDocument/didClose", did_close(uri))?;
+                        ls.quiesce(cfg)?;
+                        open[e] = None;
+                    }
+                }
+                if open[d].is_none() {
+                    ls.notify("textDocument/didOpen", did_open(uri, lang, &text))?;
+                } else {
+                    ver += 1;
+                    ls.notify("textDocument/didChange", did_change(uri, ver, &text))?;
+                }
+                ls.quiesce(cfg)?;
+                open[d] = Some(text.clone());
+                let got = pub_lines(ls.last_publication(uri));
+                let want = match memo.get(&(d, text.clone())) {
+                    Some(w) => w.clone(),
+                    None => {
+                        let w = fresh_publication(cfg, uri, lang, &text)?;
+                        memo.insert((d, text.clone()), w.clone());
+                        w
+                    }
+                };
+                sess.o();
+                sess.count(&format!("ls-session:lang:{}", lang));
+                if got != want {
+                    let (g, w) = (got.clone().unwrap_or_default(), want.clone().unwrap_or_default());
+                    let only_long: Vec<&String> = g.iter().filter(|x| !w.contains(x)).take(3).collect();
+                    let only_fresh: Vec<&String> = w.iter().filter(|x| !g.contains(x)).take(3).collect();
+                    sess.fail(
+                        "ls-session-history-dependent",
+                        format!("real Backend, settings {}: after {:?} the publication for {} ({}) differs from that of a server that only ever opened this text — long-lived only: {:?}; new only: {:?} ({} vs {} diagnostics)", cfg, done, uri, lang, only_long, only_fresh, g.len(), w.len()),
+                        json!({"kind": "ls-session", "settings": cfg, "docs": docs, "texts": texts, "script": script}),
+                        None,
+                    );
+                    let _ = ls.shutdown(cfg);
+                    return Ok(());
+                }
+                if want.as_ref().map(|w| !w.is_empty()).unwrap_or(false) {
+                    sess.nontrivial(&format!("ls-session|{}|{:?}", cfg, done));
+                }
+            }
+            "action" => {
+                if open[d].is_some() {
+                    for c in [0, 2, 5, 9] {
+                        let params = json!({"textDocument": {"uri": uri}, "range": {"start": {"line": 0, "character": c}, "end": {"line": 0, "character": c + 1}}, "context": {"diagnostics": []}});
+                        ls.request_sync("textDocument/codeAction", params, cfg)?;
+                    }
+                }
+            }
+            "close" => {
+                if open[d].is_some() {
+                    ls.notify("textDocument/didClose", did_close(uri))?;
+                    ls.quiesce(cfg)?;
+                    open[d] = None;
+                }
+            }
+            _ => {}
+        }
+    }
+    ls.shutdown(cfg)?;
+    Ok(())
+}
+
+fn server_hist_stream(sess: &mut Session, ctx: &Ctx, rng: &mut Rng, thorough: bool, only: Option<&Value>) {
+    crate::lsclient::set_home(&ctx.out.join("c05-home"));
+    let mut ok = true;
+    if let Some(v) = only {
+        let docs: Vec<(String, String)> = serde_json::from_value(v["docs"].clone()).unwrap_or_default();
+        let texts: Vec<String> = serde_json::from_value(v["texts"].clone()).unwrap_or_default();
+        let script: Vec<(String, usize, usize)> = serde_json::from_value(v["script"].clone()).unwrap_or_default();
+        if !docs.is_empty() && !texts.is_empty() {
+            ok &= eval_server_hist(sess, &v["settings"], &docs, &texts, &script).is_ok();
+        }
+    } else {
+        let docs: Vec<(String, String)> = [("a.md", "markdown"), ("b.txt", "plaintext"), ("c.rs", "rust"), ("d.py", "python"), ("e.html", "html"), ("b.txt", "markdown"), ("a.md", "plaintext")].iter().map(|(f, l)| (format!("file:///c05-server/{}", f), l.to_string())).collect();
+        let texts: Vec<String> = vec![
+            "There is a tset here, and we bought 3 apples. this is very boring, and it is an test.".into(),
+            "He held his baited **breath** again, one kilometr away; it were a alot worse then.".into(),
+            "Teh cat sat, teh dog ran, and Teh bird flew over the the fence.".into(),
+        ];
+        let settings = [json!({"harper-ls": {}}), json!({"harper-ls": {"linters": {"SpelledNumbers": true, "BoringWords": true, "AnA": false}, "dialect": "British"}})];
+        let s = |a: &str, d: usize, t: usize| (a.to_string(), d, t);
+        let fixed: Vec<(String, usize, usize)> = vec![s("open", 0, 0), s("open", 1, 0), s("open", 2, 0), s("change", 0, 1), s("action", 1, 0), s("change", 1, 1), s("change", 2, 1), s("change", 0, 0), s("action", 2, 0), s("change", 2, 0), s("close", 1, 0), s("open", 1, 2), s("open", 3, 2), s("change", 3, 0), s("open", 4, 1), s("change", 0, 2), s("change", 4, 0), s("change", 2, 2), s("open", 5, 1), s("change", 5, 0), s("open", 6, 1), s("open", 1, 1), s("change", 0, 1)];
+        for cfg in &settings {
+            ok &= eval_server_hist(sess, cfg, &docs, &texts, &fixed).is_ok();
+            sess.count("ls-session:several-documents-vs-own-session");
+            for _ in 0..(if thorough { 8 } else { 2 }) {
+                let script: Vec<(String, usize, usize)> = (0..rng.range(8, 16)).map(|_| (rng.pick(&["open", "change", "change", "change", "action", "close"]).to_string(), rng.below(docs.len()), rng.below(texts.len()))).collect();
+                ok &= eval_server_hist(sess, cfg, &docs, &texts, &script).is_ok();
+                sess.count("ls-session:several-documents-vs-own-session");
+            }
+        }
+    }
+    sess.monitor("the in-process language server completed the C05 sessions", ok);
 }
 
 pub fn run(ctx: &Ctx) {
@@ -435,6 +1181,21 @@ pub fn run(ctx: &Ctx) {
 
     if let Some(v) = replay_input(ctx) {
         match v["kind"].as_str().unwrap_or("") {
+            "ext" => {
+                let words: Vec<String> = serde_json::from_value(v["words"].clone()).unwrap_or_default();
+                let r = eval_xhistory(dialect_of(v["dialect"].as_str().unwrap_or("")), &words, &xops_from_json(&v["ops"]));
+                sess.o();
+                if let Some((c, d, i)) = r.fail {
+                    sess.fail(&c, d, i, None);
+                }
+            }
+            "wasm-dict" => {
+                sess.o();
+                if let Ok(Some((class, desc))) = eval_wasm_dict(dialect_of(v["dialect"].as_str().unwrap_or("")), &wops_from_json(&v["ops"])) {
+                    sess.fail(&class, desc, v.clone(), None);
+                }
+            }
+            "ls-session" => server_hist_stream(&mut sess, ctx, &mut rng, thorough, Some(&v)),
             "spell" => {
                 let docs: Vec<(String, Lang)> = ops_from_json(&v["docs"]).into_iter().filter_map(|o| if let HOp::Lint(t, l) = o { Some((t, l)) } else { None }).collect();
                 spell_history(&mut sess, &dict, wcap, &docs, "replay");
@@ -835,11 +1596,44 @@ pub fn run(ctx: &Ctx) {
         }
     }
 
+    // ---- w25: dialects × dictionaries × document languages × text families; the JS linter across
+    //      import_words; one group handed from thread to thread; the real Backend with several
+    //      documents open at once -------------------------------------------------------------------
+    {
+        let t0 = std::time::Instant::now();
+        ext_histories(&mut sess, &mut rng, &names, &curated, &all, thorough);
+        sess.add("ext:ms", t0.elapsed().as_millis() as u64);
+        let t0 = std::time::Instant::now();
+        wasm_dict_stream(&mut sess, &mut rng, thorough);
+        sess.add("wasm-linter:import-words:ms", t0.elapsed().as_millis() as u64);
+        let nd = if thorough { 120 } else { 40 };
+        let docs: Vec<(String, Lang)> = (0..nd).map(|i| pool[(i * 3) % pool.len()].clone()).collect();
+        moved_stream(&mut sess, &dict, &names, &docs);
+        let t0 = std::time::Instant::now();
+        server_hist_stream(&mut sess, ctx, &mut rng, thorough, None);
+        sess.add("ls-session:ms", t0.elapsed().as_millis() as u64);
+    }
+
     // ---- processes: a second process lints the same documents ----------------------------------
     {
         let docs = process_docs();
         let mine = digest(&dict, &docs, &all_on(&names));
         let exe = std::env::current_exe().ok();
+        // w25: and a third one that did other work first (see `child`)
+        let out2 = exe.clone().and_then(|e| std::process::Command::new(e).arg("C05").env("HV_C05_CHILD", "2").output().ok());
+        match out2.and_then(|o| serde_json::from_slice::<Vec<String>>(&o.stdout).ok()) {
+            Some(theirs) if theirs.len() == mine.len() => {
+                sess.count("processes:child-with-other-work-first-compared");
+                for (i, (a, b)) in mine.iter().zip(theirs.iter()).enumerate() {
+                    sess.o();
+                    if a != b {
+                        sess.fail("process-dependent", format!("a process that had linted other documents (another dialect, another dictionary, reverse order) before got different lints for document {:?}", docs[i].0), json!({"kind": "history", "ops": ops_json(&[HOp::Cfg(all_on(&names)), HOp::Lint(docs[i].0.clone(), docs[i].1)]), "note": "differs between two processes"}), None);
+                        break;
+                    }
+                }
+            }
+            _ => sess.count("processes:child-with-other-work-first-unavailable"),
+        }
         let out = exe.and_then(|e| std::process::Command::new(e).arg("C05").env("HV_C05_CHILD", "1").output().ok());
         match out.and_then(|o| serde_json::from_slice::<Vec<String>>(&o.stdout).ok()) {
             Some(theirs) => {
@@ -857,7 +1651,7 @@ pub fn run(ctx: &Ctx) {
     }
 
     sess.finish(
-        "corpus histories (same characters plain then Markdown and back; Teh/teh/TEH; one clause at different offsets with configuration toggles; unknown keys); random histories of 5–14 ops over a working set of 2–5 documents (rule-test sentences, Markdown-decorated copies, shared clauses; plain and Markdown), every lint compared with a brand-new group and predicted by the model from per-rule tables; capacity pressure (cap+5% distinct chunks); SpellCheck's word cache (long-lived vs new, K on the word sequence); 8 threads with per-thread groups in different orders; harper_wasm::Linter long-lived vs new, also under three explicit user configurations; harper-ls DocumentState (diagnostics / code actions / diagnostics) long-lived vs new under the same configurations; a second process. Non-trivial = a history with lints and a repeated document or ≥2 configuration ops.",
+        "corpus histories (same characters plain then Markdown and back; Teh/teh/TEH; one clause at different offsets with configuration toggles; unknown keys); random histories of 5–14 ops over a working set of 2–5 documents (rule-test sentences, Markdown-decorated copies, shared clauses; plain and Markdown), every lint compared with a brand-new group and predicted by the model from per-rule tables; capacity pressure (cap+5% distinct chunks); SpellCheck's word cache (long-lived vs new, K on the word sequence); 8 threads with per-thread groups in different orders; harper_wasm::Linter long-lived vs new, also under three explicit user configurations; harper-ls DocumentState (diagnostics / code actions / diagnostics) long-lived vs new under the same configurations; a second process, and a third that did other work first; w25 (oracle only): all four dialects × {curated, curated merged with user words} long-lived vs brand-new over every document language of the server and the families dialect-near-miss / non-ASCII / astral / combining / fullwidth / CRLF / lone CR / empty / whitespace-only / long word / repeated clause / user-word case variants / long document; harper_wasm::Linter across import_words (rebuilds its group) vs a new Linter and vs harper-core over curated + those words; one group handed across threads, brand-new threads vs a used one (gibberish that forces the distance back-off, capitalised misspellings); the real Backend with five documents of five languages open at once (and a URI re-opened under another language id) vs a session of its own per text. Non-trivial = a history with lints and a repeated document or ≥2 configuration ops.",
         false,
         json!({"chunk_cache_capacity": cap, "chunk_cache_capacity_from_source": cap_ok, "word_cache_capacity": wcap, "word_cache_capacity_from_source": wcap_ok, "rules": all.len()}),
     );
